@@ -138,7 +138,7 @@ def selftest(seed, pairs, workers, props):
     for prop in props:
         mod = runner.prop_module(prop)
         plan = runner.plan_runs(mod, "quick", mod.n_runs("quick"))
-        cfg = {"tier": "quick", "n_classes": len(plan[0]), "fault_every": getattr(mod, "FAULT_EVERY", 5), "samples_per_job": 0, "seed": seed}
+        cfg = {"tier": "quick", "n_classes": len(plan[0]), "fault_every": int(os.environ.get("GBSIM_FAULT_EVERY") or getattr(mod, "FAULT_EVERY", 5)), "samples_per_job": 0, "seed": seed}
         a = runner.Pools(workers)
         try:
             res = runner.determinism_selftest(prop, "quick", seed, plan, cfg, pairs, a)
